@@ -3,6 +3,14 @@ import Irismod.Sdk.GoSem
 namespace Irismod.Gen.PureTokenFee
 open Irismod.Sdk Irismod.GoSem
 
+/-- rejects when true: `owner.String() != token.Owner` -/
+def MintToken_guard_1 (read_owner_String : String) (token_Owner : String) : Option (Bool) := do
+  some (read_owner_String != token_Owner)
+
+/-- rejects when true: `!token.Mintable` -/
+def MintToken_guard_2 (token_Mintable : Bool) : Option (Bool) := do
+  some (!token_Mintable)
+
 def MintToken_precision_1 (token_Scale : Nat) : Option (Int) := do
   let t1 ← NewIntWithDecimal (1 : Int) (token_Scale : Int)
   some t1
@@ -12,14 +20,6 @@ def MintToken_mintableAmt_1 (token_MaxSupply : Nat) (precision : Int) (supply : 
   let t2 ← Int_Sub t1 supply
   some t2
 
-/-- rejects when true: `owner.String() != token.Owner` -/
-def MintToken_guard_1 (read_owner_String : String) (token_Owner : String) : Option (Bool) := do
-  some (read_owner_String != token_Owner)
-
-/-- rejects when true: `!token.Mintable` -/
-def MintToken_guard_2 (token_Mintable : Bool) : Option (Bool) := do
-  some (!token_Mintable)
-
 /-- rejects when true: `coinMinted.Amount.GT(mintableAmt)` -/
 def MintToken_guard_3 (coinMinted : Coin) (mintableAmt : Int) : Option (Bool) := do
   some (Int_GT coinMinted.amount mintableAmt)
@@ -27,22 +27,6 @@ def MintToken_guard_3 (coinMinted : Coin) (mintableAmt : Int) : Option (Bool) :=
 /-- branch condition: `recipient.Empty()` -/
 def MintToken_cond_4 (read_recipient_Empty : Bool) : Option (Bool) := do
   some read_recipient_Empty
-
-def EditToken_issuedAmt_1 (read_k_getTokenSupply_ctx_token_MinUnit : Int) : Option (Int) := do
-  some read_k_getTokenSupply_ctx_token_MinUnit
-
-def EditToken_precision_1 (token_Scale : Nat) : Option (Int) := do
-  let t1 ← NewIntWithDecimal (1 : Int) (token_Scale : Int)
-  some t1
-
-def EditToken_token_MaxSupply_1 (maxSupply : Nat) : Option (Nat) := do
-  some maxSupply
-
-def EditToken_token_Name_1 (name : String) : Option (String) := do
-  some name
-
-def EditToken_token_Mintable_1 (read_mintable_ToBool : Bool) : Option (Bool) := do
-  some read_mintable_ToBool
 
 /-- rejects when true: `owner.String() != token.Owner` -/
 def EditToken_guard_1 (read_owner_String : String) (token_Owner : String) : Option (Bool) := do
@@ -52,14 +36,27 @@ def EditToken_guard_1 (read_owner_String : String) (token_Owner : String) : Opti
 def EditToken_cond_2 (maxSupply : Nat) : Option (Bool) := do
   some (decide (maxSupply > (0 : Nat)))
 
+def EditToken_issuedAmt_1 (read_k_getTokenSupply_ctx_token_MinUnit : Int) : Option (Int) := do
+  some read_k_getTokenSupply_ctx_token_MinUnit
+
+def EditToken_precision_1 (token_Scale : Nat) : Option (Int) := do
+  let t1 ← NewIntWithDecimal (1 : Int) (token_Scale : Int)
+  some t1
+
 /-- rejects when true: `sdkmath.NewIntFromUint64(maxSupply).Mul(precision).LT(issuedAmt)` -/
 def EditToken_guard_3 (maxSupply : Nat) (precision : Int) (issuedAmt : Int) : Option (Bool) := do
   let t1 ← Int_Mul (NewIntFromUint64 (maxSupply : Int)) precision
   some (Int_LT t1 issuedAmt)
 
+def EditToken_token_MaxSupply_1 (maxSupply : Nat) : Option (Nat) := do
+  some maxSupply
+
 /-- branch condition: `name != v1.DoNotModify` -/
 def EditToken_cond_4 (name : String) : Option (Bool) := do
   some (name != "[do-not-modify]")
+
+def EditToken_token_Name_1 (name : String) : Option (String) := do
+  some name
 
 /-- branch condition: `exist` -/
 def EditToken_cond_5 (exist : Bool) : Option (Bool) := do
@@ -68,6 +65,9 @@ def EditToken_cond_5 (exist : Bool) : Option (Bool) := do
 /-- branch condition: `mintable != types.Nil` -/
 def EditToken_cond_6 (mintable : String) : Option (Bool) := do
   some (mintable != "")
+
+def EditToken_token_Mintable_1 (read_mintable_ToBool : Bool) : Option (Bool) := do
+  some read_mintable_ToBool
 
 def GetTokenMintFee_mintFee_1 (fee : Coin) (params_MintTokenFeeRatio : Dec) : Option (Int) := do
   let t1 ← Dec_Mul (LegacyNewDecFromInt fee.amount) params_MintTokenFeeRatio
@@ -88,6 +88,6 @@ def calcFeeByBase_actualFee_1 (baseFee : Int) (feeFactor : Dec) : Option (Dec) :
 def untranslated : List String := []
 
 /-- names of the translated definitions -/
-def translated : List String := ["MintToken_precision_1(token_Scale)", "MintToken_mintableAmt_1(token_MaxSupply,precision,supply)", "MintToken_guard_1(read_owner_String,token_Owner)", "MintToken_guard_2(token_Mintable)", "MintToken_guard_3(coinMinted,mintableAmt)", "MintToken_cond_4(read_recipient_Empty)", "EditToken_issuedAmt_1(read_k_getTokenSupply_ctx_token_MinUnit)", "EditToken_precision_1(token_Scale)", "EditToken_token_MaxSupply_1(maxSupply)", "EditToken_token_Name_1(name)", "EditToken_token_Mintable_1(read_mintable_ToBool)", "EditToken_guard_1(read_owner_String,token_Owner)", "EditToken_cond_2(maxSupply)", "EditToken_guard_3(maxSupply,precision,issuedAmt)", "EditToken_cond_4(name)", "EditToken_cond_5(exist)", "EditToken_cond_6(mintable)", "GetTokenMintFee_mintFee_1(fee,params_MintTokenFeeRatio)", "feeHandler_communityTaxCoin_1(fee,tokenTaxRate)", "calcFeeByBase_actualFee_1(baseFee,feeFactor)"]
+def translated : List String := ["MintToken_guard_1(read_owner_String,token_Owner)", "MintToken_guard_2(token_Mintable)", "MintToken_precision_1(token_Scale)", "MintToken_mintableAmt_1(token_MaxSupply,precision,supply)", "MintToken_guard_3(coinMinted,mintableAmt)", "MintToken_cond_4(read_recipient_Empty)", "EditToken_guard_1(read_owner_String,token_Owner)", "EditToken_cond_2(maxSupply)", "EditToken_issuedAmt_1(read_k_getTokenSupply_ctx_token_MinUnit)", "EditToken_precision_1(token_Scale)", "EditToken_guard_3(maxSupply,precision,issuedAmt)", "EditToken_token_MaxSupply_1(maxSupply)", "EditToken_cond_4(name)", "EditToken_token_Name_1(name)", "EditToken_cond_5(exist)", "EditToken_cond_6(mintable)", "EditToken_token_Mintable_1(read_mintable_ToBool)", "GetTokenMintFee_mintFee_1(fee,params_MintTokenFeeRatio)", "feeHandler_communityTaxCoin_1(fee,tokenTaxRate)", "calcFeeByBase_actualFee_1(baseFee,feeFactor)"]
 
 end Irismod.Gen.PureTokenFee
